@@ -13,14 +13,15 @@ import tempfile
 import numpy as np
 
 from env import resume_harness as rh
+from env.targets import InjectedInterrupt
 from mc import explorer
 from mc.par import pmap
 from mc.report import Report
 
 LEVEL = "fault_enumeration"
 RULE = ("configuration grid (sampler x schedule x checkpoint cadence x n_final_samples [with / without its own n_final_steps] x preconditioning x seed) x every "
-        "user-callable call index k of the reference run (fault = exception raised inside the k-th likelihood/prior call) x "
-        "resume route {bytes, dict (unpickled), the live dict object the callback received - for every crash point -, file path}; plus the resume-from-file constructor route with a real zuko flow; thorough "
+        "user-callable call index k of the reference run (fault = exception, and KeyboardInterrupt, raised inside the k-th likelihood/prior call) x generator created by the sampler / handed to its constructor x "
+        "resume route {bytes, dict (unpickled), the live dict object the callback received - for every crash point -, HDF5 file path, raw pickle file path}; plus the resume-from-file constructor route with a real zuko flow; plus BlackJAXSMC (stand-in rwmh kernel) resumed from every checkpoint of an uninterrupted run; thorough "
         "adds a second fault inside every resumed run. One evaluation = one faulted or resumed run of the real sampler; "
         "non-trivial = crash point with at least one checkpoint before it and at least one iteration left to run; "
         "distinct = distinct (config, crash point, route)")
@@ -85,6 +86,20 @@ def run_config(cfg):
                 continue
             if not all(rh.payload_equal(a[1], b[1]) for a, b in zip(F.sink, ck[: len(F.sink)])):
                 raise explorer.HarnessError(f"faulted run diverged from the reference before the fault (k={k}, {cfg})")
+            # the same crash point hit by a KeyboardInterrupt (Ctrl-C / scheduler signal) instead of an exception: the
+            # checkpoints written up to the interruption are the uninterrupted run's, and resuming from the last one
+            # reproduces it
+            FI = rh.run(cfg, fault_at=k, fault_exc=InjectedInterrupt)
+            rep.case(explorer.digest([cfg, k, "interrupt"]), nontrivial=True)
+            casei = {"cfg": cfg, "crash_points": [k, k], "fault": "KeyboardInterrupt", "route": "bytes"}
+            if FI.exception is None or FI.exception[0] != "KeyboardInterrupt":
+                rep.violation(f"C11/interrupt-not-propagated/{FI.exception[0] if FI.exception else 'swallowed'}", FI.exception, casei)
+            elif len(FI.sink) != len(F.sink) or not all(rh.payload_equal(a[1], b[1]) for a, b in zip(FI.sink, F.sink)):
+                ri = rh.run(cfg, resume_from=FI.sink[-1][1]) if FI.sink else None
+                if ri is None or ri.exception is not None:
+                    rep.violation("C11/resume-raises/after-KeyboardInterrupt", ri.exception if ri else None, casei)
+                elif compare(ri, R, rep, "C11/resumed-run-differs/after-KeyboardInterrupt", casei):
+                    rep.count("observation:interrupted-run-wrote-other-checkpoints-but-resumes-identically")
             j = len(F.sink) - 1
             last_for_k[k] = j
             rep.case(explorer.digest([cfg, k]), nontrivial=j >= 0 and ck[j][0] < iters)
@@ -104,13 +119,18 @@ def run_config(cfg):
         for j in sorted(set(v for v in last_for_k.values() if v >= 0)):
             it, payload = ck[j]
             ks = [k for k, v in last_for_k.items() if v == j]
-            for route in ("bytes", "dict", "path"):
+            for route in ("bytes", "dict", "path", "pickle-file"):
                 case = {"cfg": cfg, "checkpoint_index": j, "iteration": it, "route": route, "crash_points": [ks[0], ks[-1]]}
                 try:
                     if route == "bytes":
                         r = rh.run(cfg, resume_from=payload)
                     elif route == "dict":
                         r = rh.run(cfg, resume_from=pickle.loads(payload))
+                    elif route == "pickle-file":  # a path that is not an HDF5 file is read as a raw pickle
+                        pkl = os.path.join(tmpdir, f"ck_{j}.pkl")
+                        with open(pkl, "wb") as fh:
+                            fh.write(payload)
+                        r = rh.run(cfg, resume_from=pkl)
                     else:
                         path = os.path.join(tmpdir, f"ck_{j}.h5")
                         F = rh.run(cfg, fault_at=ks[0], file_path=path)
@@ -154,6 +174,39 @@ def run_config(cfg):
     return rep.dump()
 
 
+def run_blackjax_config(cfg):
+    """BlackJAXSMC (stand-in rwmh kernel): resume from every checkpoint the uninterrupted run wrote (the user's functions are
+    traced by JAX, so no fault is injected inside them; the run is cut at the checkpoints instead)."""
+    from env.jax_env import run_blackjax
+
+    rep = Report()
+    R = run_blackjax(cfg)
+    case0 = {"blackjax": True, "cfg": cfg}
+    rep.case(explorer.digest(case0), nontrivial=False)
+    if R.exception is not None:
+        rep.violation(f"C11/blackjax_smc/run-raises/{R.exception[0]}/{R.exception[1]}", R.exception, case0)
+        return rep.dump()
+    R2 = run_blackjax(cfg)
+    if rh.diff(rh.summary(R), rh.summary(R2)):
+        raise explorer.HarnessError(f"blackjax reference run is not deterministic for {cfg}")
+    iters = len(R.history["beta"])
+    seen = set()
+    for it, payload in R.sink:
+        if it in seen:
+            continue
+        seen.add(it)
+        for route in ("bytes", "dict"):
+            case = dict(case0, iteration=it, route=route)
+            r = run_blackjax(cfg, resume_from=payload if route == "bytes" else pickle.loads(payload))
+            rep.case(explorer.digest(case), nontrivial=it < iters)
+            if r.exception is not None:
+                rep.violation(f"C11/blackjax_smc/resume-raises/{route}/{r.exception[0]}/{r.exception[1]}", r.exception, case)
+                continue
+            compare(r, R, rep, f"C11/blackjax_smc/resumed-run-differs/{route}", case)
+    rep.sample(case0)
+    return rep.dump()
+
+
 def configs(tier, seed):
     seeds = sorted({0, 1, seed})
     out = []
@@ -175,6 +228,12 @@ def configs(tier, seed):
             for cadence in (1, 2) if tier == "thorough" else (1,):
                 out.append({"sampler": sampler, "N": 8, "opts": dict(SCHEDULES[sname]), "cadence": cadence, "n_final": 9, "n_final_steps": 4,
                             "precond": "none", "seed": 0, "sched": sname, "_tier": tier})
+    # the user's own generator handed to the sampler constructor (a resumed run is given an identically seeded one);
+    # EmceeSMC's constructor takes no generator
+    for sampler in ("smc",):
+        for sname in ("adaptive", "fixed3") if tier == "thorough" else ("adaptive",):
+            out.append({"sampler": sampler, "N": 8, "opts": dict(SCHEDULES[sname]), "cadence": 1, "n_final": 9 if sname == "adaptive" else None,
+                        "precond": "none", "seed": 0, "sched": sname, "rng_way": "constructor", "_tier": tier})
     if tier == "thorough":
         for sname in ("adaptive", "fixed3"):
             out.append({"sampler": "smc", "N": 8, "opts": dict(SCHEDULES[sname]), "cadence": 1, "n_final": None,
@@ -192,11 +251,22 @@ def run(tier, seed, workers):
 
     for d in pmap("checks.c11_file", "run_config", c11_file.configs(tier, seed), workers):
         rep.merge(d)
+    bj = []
+    for opts, nf in (({"adaptive": True, "target_efficiency": 0.8}, 10), ({"adaptive": False, "n_steps": 3}, None)):
+        for pre in ("none", "logit") if tier == "thorough" else ("none",):
+            for cad in (1, 2):
+                bj.append({"sampler": "blackjax_smc", "N": 8, "seed": 0, "opts": opts, "n_final": nf, "precond": pre, "cadence": cad})
+    for d in pmap("checks.c11", "run_blackjax_config", bj, workers):
+        rep.merge(d)
+    rep.count("blackjax_configs", len(bj))
     return rep
 
 
 def replay(case):
     rep = Report()
+    if case.get("blackjax"):
+        rep.merge(run_blackjax_config(case["cfg"]))
+        return rep
     cfg = dict(case["cfg"])
     cfg.pop("_tier", None)
     te = cfg["opts"].get("target_efficiency")
